@@ -40,7 +40,7 @@ func refOf(i int, rpc *RPC) Ref {
 	r.Status = "nil"
 	r.Code = "OK"
 	ops := append(append([]string{}, rpc.Handler...), rpc.Handler2...)
-	sentHdr := false
+	sentHdr, sendFailed := false, false
 	for _, op := range ops {
 		switch {
 		case len(op) > 1 && op[0] == 's' && op[1] >= '0' && op[1] <= '9':
@@ -54,6 +54,8 @@ func refOf(i int, rpc *RPC) Ref {
 			if op[0] == 'H' {
 				sentHdr = true
 			}
+		case op == "sn":
+			sendFailed = true
 		case strings.HasPrefix(op, "t:"):
 			r.TrlKeys = append(r.TrlKeys, op[2:])
 		case strings.HasPrefix(op, "ret:"):
@@ -87,6 +89,9 @@ func refOf(i int, rpc *RPC) Ref {
 				r.Status, r.Code = "failed", "any" // a failure; which status the client sees is not fixed
 			}
 		}
+	}
+	if sendFailed && r.Status != "nil" {
+		r.Code = "any" // after a failed SendMsg the transport may not be able to carry the handler's status
 	}
 	if rpc.Kind == "unary" && !hasRet(rpc.Handler) {
 		r.Msgs = append(r.Msgs, tag(i, "s", 0))
